@@ -92,7 +92,7 @@ dimension sweeps (`_sweep_domains`; the same oracles on inputs that vary along o
   C01/hashseed           oracle C01/hashseed: a batch of cases of the other oracles (str / numeric-str / int / float labels) in new
                          interpreters started with other PYTHONHASHSEED values; each must hold there (the statement leaves the
                          ORDER of conditions / RDMs free, so results are not compared across interpreters beyond that).
-defects found by the sweeps, registrations behind `if False:  # pending triage: <class>` (see the report of the sweep):
+defects found by the sweeps (both repaired in /repo: e11d6494, d8538afc; their classes are registered normally now):
   'narrow-int-data,no-descriptor,euclidean'   int8 .. uint32 measurements, descriptor=None, euclidean / mahalanobis without
                          precision and without remove_mean: squares and products are computed in the narrow dtype and wrap around
   'vector-valued-extra-obs-descriptor,repetitions'   a 2-D obs descriptor and a condition descriptor with repetitions: TypeError
@@ -1914,7 +1914,7 @@ def _sweep_domains(run, thorough):
                                          tdesc='array', method=method, opt=opt, descriptor='cond',
                                          bins=[[0.0, 1.0], [2.0, 3.0]] if seed % 2 else None, bins_type='array'),
                          'typed-data,movie,' + dt, function='calc_rdm_movie')
-    if False:  # pending triage: narrow-int-data,no-descriptor,euclidean
+    if True:   # was pending triage: narrow-int-data,no-descriptor,euclidean -- repaired in /repo e11d6494
         for case in pending_overflow:
             bd.check(orc_values, case, K_NARROW_OVERFLOW, function='calc_rdm_euclidean')
     bd.done()
@@ -2098,7 +2098,7 @@ def _sweep_domains(run, thorough):
                     ic = 'vector-valued-extra-obs-descriptor,' + ('no-repetition' if descriptor else 'no-descriptor')
                     bd.check(orc_values, case, ic, function='_build_rdms')
                     bd_d.check(orc_descriptors, case, ic, function='_build_rdms')
-    if False:  # pending triage: vector-valued-extra-obs-descriptor,repetitions
+    if True:   # was pending triage: vector-valued-extra-obs-descriptor,repetitions -- repaired in /repo d8538afc
         for case in pending_vec:
             bd.check(orc_values, case, K_VECTOR_DESC, function='_build_rdms')
             bd_d.check(orc_descriptors, case, K_VECTOR_DESC, function='_build_rdms')
